@@ -349,7 +349,7 @@ pub fn run_group(seed: u64, gi: u64, base: &InstSpec, tier: &FTier, st: &mut Sta
             let payloads: Vec<Payload> = if k <= 3 {
                 PAYLOADS.to_vec()
             } else {
-                vec![PAYLOADS[((k + pi as u64 + gi) % 4) as usize]]
+                vec![PAYLOADS[((k + pi as u64 + gi) % PAYLOADS.len() as u64) as usize]]
             };
             for drive in &drives {
                 for payload in &payloads {
